@@ -2,8 +2,8 @@ package eio
 
 import (
 	"net/http"
-	stdsync "sync"
 	"net/url"
+	stdsync "sync"
 
 	"github.com/karagenc/socket.io-go/engine.io/parser"
 	"github.com/karagenc/socket.io-go/engine.io/transport"
@@ -50,7 +50,7 @@ func (t *verifRecServerTransport) Name() string {
 func (t *verifRecServerTransport) Handshake(p *parser.Packet, w http.ResponseWriter, r *http.Request) (string, error) {
 	return "", nil
 }
-func (t *verifRecServerTransport) PostHandshake(p *parser.Packet)                 {}
+func (t *verifRecServerTransport) PostHandshake(p *parser.Packet)                   {}
 func (t *verifRecServerTransport) ServeHTTP(w http.ResponseWriter, r *http.Request) {}
 func (t *verifRecServerTransport) QueuedPackets() []*parser.Packet {
 	q := t.queued
@@ -62,8 +62,8 @@ func (t *verifRecServerTransport) Send(p ...*parser.Packet) {
 	t.sent = append(t.sent, p...)
 	t.mu.Unlock()
 }
-func (t *verifRecServerTransport) Discard()                 { t.discards++ }
-func (t *verifRecServerTransport) Close()                   { t.closed++ }
+func (t *verifRecServerTransport) Discard() { t.discards++ }
+func (t *verifRecServerTransport) Close()   { t.closed++ }
 
 func verifCallbacks() *transport.Callbacks { return transport.NewCallbacks() }
 
@@ -93,8 +93,6 @@ func (w *verifRW) WriteHeader(code int) {
 	}
 }
 
-
 func verifReq(method, query string) *http.Request {
 	return &http.Request{Method: method, URL: &url.URL{Path: "/engine.io/", RawQuery: query}, ProtoMajor: 1, ProtoMinor: 1, Header: http.Header{}}
 }
-
